@@ -17,10 +17,11 @@ PROBES = ['retry-round', 'round>=3', 'per-recipient-result',
           'sequence-shaped-result', 'unexpected-exception-path',
           'mixed-outcome', 'retry-exhaustion', 'bounce', 'announcement',
           'backend:dict', 'backend:disk', 'backend:redis', 'backend:cloud',
-          'backend:cloud+mq', 'relay:pipe', 'relay:pipe1', 'mapping-in-other-order']
+          'backend:cloud+mq', 'relay:pipe', 'relay:pipe1', 'relay:smtp', 'relay:lmtp', 'mapping-in-other-order']
 STATES_MEASURE = ('distinct (backend, per-message sequence of (result shape, '
                   'sorted per-recipient ground-truth outcomes)) vectors')
-BIAS = {'relays': ['script', 'script', 'script', 'pipe', 'pipe1']}
+BIAS = {'relays': ['script', 'script', 'script', 'pipe', 'pipe1', 'smtp',
+                   'lmtp']}
 
 
 def generate(seed, tier='quick'):
